@@ -15,7 +15,7 @@ LEAN_CONE = ['PncModel.Cal', 'PncModel.TimeDec', 'PncModel.Arr', 'PncModel.Ioapi
              'PncProofs.C11']
 LEMMA_FILES = ['PncProofs/IoapiLemmas.lean', 'PncProofs/C10.lean']
 REQUIRED_THEOREMS = ['window_contiguous', 'origin_x', 'origin_y', 'origin_unchanged', 'levels_window',
-                     'start_is_first_selected', 'time_window_partial']
+                     'start_is_first_selected', 'time_window_partial', 'slice_keeps_varlist', 'time_window']
 RULE = ('gridded IOAPI files (1-5 steps, 1-4 layers/rows/columns; start times just before midnight, 28/29 Feb, '
         '31 Dec of leap and common years; steps of 30 min to 120 h) x windows on 1-3 of TSTEP/LAY/ROW/COL given as '
         'positive or negative integers or unit-stride slices with None / negative / explicit bounds, incl. windows '
@@ -24,7 +24,7 @@ RULE = ('gridded IOAPI files (1-5 steps, 1-4 layers/rows/columns; start times ju
         '(sub-range, one more than layers), the decoded times (sub-range of getTimes()) and SDATE/STIME/TSTEP; '
         'non-trivial = a window that does not start at index 0 on at least one dimension')
 ASSUMPTIONS = c10.ASSUMPTIONS + ['dyadic cell sizes and level edges, so float32/float64 arithmetic of the code is exact',
-                                 'time_window_partial carries the side condition that the number of listed variables is unchanged; the harness checks it on every case']
+                                 'time_window (full) assumes AllListed: every standard-dimension variable with a name of at most 16 characters is listed and names are distinct, which updatemeta establishes for the files the library builds; time_window_partial states the same under the bare side condition, which the harness also checks on every case']
 MIN_NONTRIVIAL = {'quick': 120, 'thorough': 2000}
 NPROC = {'quick': 4, 'thorough': 12}
 
